@@ -75,7 +75,7 @@ class InternalGate(ops.Gate):
 
         return (
             f"cirq_google.InternalGate(gate_name='{self.gate_name}', "
-            f"gate_module='{self.gate_module}', "
+            f"gate_module={self.gate_module!r}, "
             f"num_qubits={self._num_qubits}"
             f"{custom_args}"
             f"{gate_args})"
